@@ -494,7 +494,7 @@ def r6(R, tus, fns):
         R.fail("rules/c20_sites.json (frozen list of confirmed PRECONDITION sites) is missing")
     sites = {}
     for row in json.load(open(sp)):
-        k = (row["function"], row["array"], row["access"], row["statement"]) + ((row["when"],) if row.get("when") else ())
+        k = (row["function"], row["array"], row["access"], tuple(row.get("conds") or ()))
         sites[k] = dict(n=row["n"], why=row["why"], shown=row.get("shown", ""))
     res = bounds.run_all(tus, ext, table=table, domains=domains, trusted=c20_table.TRUSTED, sites=sites)
     tot = collections.Counter()
